@@ -139,43 +139,51 @@ structure Answer (α : Type) where
   second : α
   iters : Nat
 
-/-- the body of the `while` loop for one oracle answer. `inl`: an exception; `inr (s, end)` -/
+/-- first part of the body of the `while` loop: accept (`scs.update`, `t += dt`, end test, new time
+step) or reject (`scs.revert`, sub-step count, reduced time step). `inl`: an exception; `inr (s, end)` -/
+def stepFirst (C : Consts α) (o : Opts α) (te tEps : α) (s : LoopState α) (r : Answer α) :
+    Sum (Outcome α) (LoopState α × Bool) :=
+  let converged := if o.dyn then r.first && decide (C.aone ≤ r.second) else r.first
+  if converged then
+    let t' := s.t + s.dt
+    let fin := (decide (C.abs (te - t') < tEps)) || (decide (te < t'))
+    let dt' := if o.dyn then s.dt * cmax (cmin o.maxF r.second) C.one else s.dt
+    let log' := if fin then s.log else Event.output t' :: s.log
+    .inr ({ s with t := t', dt := dt', period := s.period + 1, dt_1 := s.dt, log := log' }, fin)
+  else
+    let sub' : Nat := s.subStep + 1
+    if Int.ofNat sub' = o.mSub then .inl (.maxSub { s with subStep := sub' })
+    else
+      let rdt :=
+        if o.dyn then
+          (if r.first then cmax r.second o.minF else cmax (cmin C.half r.second) o.minF)
+        else C.half
+      .inr ({ s with subStep := sub', dt := s.dt * rdt }, false)
+
+/-- the time step used by the next attempt: `if (!end) { if (o.dynamic_time_step_scaling) {...} }` -/
+def clampDt (C : Consts α) (o : Opts α) (te : α) (s : LoopState α) : α :=
+  if o.dyn then
+    let d := if C.zero < o.maxTs then cmin s.dt o.maxTs else s.dt
+    -- intended: the remaining time minus the (non-negative) minimal time step
+    if (te - s.t) - cmax o.minTs C.zero < d then te - s.t else d
+  else s.dt
+
+/-- second part of the body (`if (!end)`): clamp, then the two `raise_if` -/
+def stepSecond (C : Consts α) (o : Opts α) (te : α) (s : LoopState α) :
+    Sum (Outcome α) (LoopState α × Bool) :=
+  let s' := { s with dt := clampDt C o te s }
+  if s'.dt < C.zero then .inl (.negative s')
+  else if s'.dt < o.minTs then .inl (.belowMin s')
+  else .inr (s', false)
+
+/-- the body of the `while` loop for one oracle answer -/
 def body (C : Consts α) (o : Opts α) (te tEps : α) (s : LoopState α) (r : Answer α) :
     Sum (Outcome α) (LoopState α × Bool) :=
   let s := { s with iters := s.iters + r.iters, log := Event.attempt s.t s.dt :: s.log }
-  let converged := if o.dyn then r.first && decide (C.aone ≤ r.second) else r.first
-  -- first part: accept or reject
-  let res : Sum (Outcome α) (LoopState α × Bool) :=
-    if converged then
-      let t' := s.t + s.dt
-      let fin := (C.abs (te - t') < tEps) || (te < t')
-      let dt' := if o.dyn then s.dt * cmax (cmin o.maxF r.second) C.one else s.dt
-      let log' := if fin then s.log else Event.output t' :: s.log
-      .inr ({ s with t := t', dt := dt', period := s.period + 1, dt_1 := s.dt, log := log' }, fin)
-    else
-      let sub' : Nat := s.subStep + 1
-      if Int.ofNat sub' = o.mSub then .inl (.maxSub { s with subStep := sub' })
-      else
-        let rdt :=
-          if o.dyn then
-            (if r.first then cmax r.second o.minF else cmax (cmin C.half r.second) o.minF)
-          else C.half
-        .inr ({ s with subStep := sub', dt := s.dt * rdt }, false)
-  match res with
+  match stepFirst C o te tEps s r with
   | .inl e => .inl e
   | .inr (s', true) => .inr (s', true)
-  | .inr (s', false) =>
-    -- `if (!end) { ... }`
-    let dt1 :=
-      if o.dyn then
-        let d := if C.zero < o.maxTs then cmin s'.dt o.maxTs else s'.dt
-        -- intended: the remaining time minus the (non-negative) minimal time step
-        if (te - s'.t) - cmax o.minTs C.zero < d then te - s'.t else d
-      else s'.dt
-    let s'' := { s' with dt := dt1 }
-    if dt1 < C.zero then .inl (.negative s'')
-    else if dt1 < o.minTs then .inl (.belowMin s'')
-    else .inr (s'', false)
+  | .inr (s', false) => stepSecond C o te s'
 
 /-- the `while ((!end) && (subStep != o.mSubSteps))` loop over the script of oracle answers -/
 def loop (C : Consts α) (o : Opts α) (te tEps : α) : List (Answer α) → LoopState α → Outcome α
